@@ -68,7 +68,39 @@ def gen_spec(rng: random.Random, family: str) -> Spec:
         stages.append(StageSpec(reqs=reqs, join=join, threshold=th, tasks=tasks, cont=rng.random() < 0.15,
                                 failp=(rng.random() > 0.1) if exotic else True, enabled=rng.choice([None] * 8 + [False, True]),
                                 maxj=rng.choice([None] * 5 + [0, 1, 2]) if family in ("w3", "any") else None))
+    if family != "w0":
+        # OR-split (WCP-6): a stage with several downstream stages gets constant split conditions per downstream
+        for i in range(n):
+            down = [d for d in range(n) if i in stages[d].reqs]
+            if len(down) >= 2 and rng.random() < 0.4:
+                stages[i].split = {d: rng.random() < 0.6 for d in down if rng.random() < 0.85}
+                if not stages[i].split:
+                    stages[i].split = {down[0]: False}
     return Spec(stages, wf_maxj=rng.choice([None] * 4 + [1, 2, 3]) if family in ("w3", "any") else None)
+
+
+def gen_orsplit_spec(rng: random.Random) -> Spec:
+    """directed family: an OR-split whose branches have different lengths, paired with an OR-join (possibly with an extra
+    upstream outside the split): the join must wait for the END of every activated branch"""
+    slow = rng.choice([["S"], ["R", "S"], ["R", "R", "S"], ["E", "S"]])
+    a_len, b_len = rng.randint(1, 2), rng.randint(1, 3)
+    stages = [StageSpec(reqs=[], tasks=[["S"]])]                      # 0: the split
+    a = []
+    for k in range(a_len):
+        stages.append(StageSpec(reqs=[0] if k == 0 else [len(stages) - 1], tasks=[["S"]]))
+        a.append(len(stages) - 1)
+    b = []
+    for k in range(b_len):
+        stages.append(StageSpec(reqs=[0] if k == 0 else [len(stages) - 1], tasks=[list(slow)] if k == b_len - 1 else [["S"]]))
+        b.append(len(stages) - 1)
+    extra = []
+    if rng.random() < 0.3:
+        stages.append(StageSpec(reqs=[], tasks=[list(rng.choice([["S"], ["R", "S"]]))]))
+        extra.append(len(stages) - 1)
+    join_reqs = sorted([a[-1], b[-1]] + extra)
+    stages.append(StageSpec(reqs=join_reqs, join=rng.choice(["OR", "OR", "AND"]), tasks=[["S"]]))
+    stages[0].split = {a[0]: rng.random() < 0.8, b[0]: rng.random() < 0.8}
+    return Spec(stages)
 
 
 # --------------------------------------------------------------------------------------
@@ -762,6 +794,8 @@ def produce(prop: str, rng: random.Random, wd: Path, j: int) -> dict:
     if prop in ("C03",) and rng.random() < 0.3:
         fam = "w3"
     spec = gen_spec(rng, fam)
+    if prop in ("C03", "C05", "C02", "C06") and rng.random() < (0.2 if prop == "C03" else 0.08):
+        spec = gen_orsplit_spec(rng)
     directed = prop in ("C06", "C18", "C05", "C02") and rng.random() < (0.3 if prop in ("C06", "C18") else 0.12)
     if directed:
         # interference family: a stage whose task suspends / polls, next to a parallel stage that jumps INTO it
@@ -1419,8 +1453,12 @@ def spec_from_line(line: str) -> Spec:
     wf = None if parts[0] == "-" else int(parts[0])
     stages = []
     for p in parts[1:]:
-        reqs, join, th, cont, failp, en, maxj, tasks = p.split("/")
-        stages.append(StageSpec(reqs=[] if reqs == "-" else [int(x) for x in reqs.split(",")], join=join, threshold=int(th),
+        f = p.split("/")
+        reqs, join, th, cont, failp, en, maxj, tasks = f[:8]
+        split = None
+        if len(f) > 8 and f[8] != "-":
+            split = {int(kv.split(":")[0]): kv.split(":")[1] == "1" for kv in f[8].split(".")}
+        stages.append(StageSpec(split=split, reqs=[] if reqs == "-" else [int(x) for x in reqs.split(",")], join=join, threshold=int(th),
                                 cont=cont == "1", failp=failp == "1", enabled=None if en == "-" else en == "1",
                                 maxj=None if maxj == "-" else int(maxj),
                                 tasks=[] if tasks == "-" else [t.split(".") for t in tasks.split("+")]))
